@@ -46,7 +46,9 @@ def gen_history(rng):
         oc = rng.choice(OUTCOMES)
         steps.append({"outcome": oc, "overlap_probe": oc == "blocked" and rng.random() < 0.7, "probes": rng.choice((1, 1, 2, 3)),
                       "flood": oc == "blocked" and rng.random() < 0.35,
-                      "own_cb": oc != "blocked" and rng.random() < 0.4})
+                      "own_cb": oc != "blocked" and rng.random() < 0.4,
+                      # the body leaves something in its namespace whose clean-up takes longer than the grace period
+                      "slow_finalizer": oc != "blocked" and rng.random() < 0.06})
     return steps
 
 
@@ -72,7 +74,10 @@ ACTIONS = {
 }
 
 
-def body_for(tag, outcome, inproc_main_ident=None, own_cb=False):
+SLOW_FINALIZER = "class _Slow:\n    def __del__(self):\n        import time\n        time.sleep(1.3)\n_keep = _Slow()\n"
+
+
+def body_for(tag, outcome, inproc_main_ident=None, own_cb=False, slow_finalizer=False):
     if outcome.startswith("timed:"):
         ACTIONS[outcome] = ACTIONS["timed"].replace("1.035", outcome.split(":")[1])
     main = "threading.main_thread" if inproc_main_ident is None else f"(lambda: [t for t in threading.enumerate() if t.ident == {inproc_main_ident}][0])"
@@ -81,6 +86,8 @@ def body_for(tag, outcome, inproc_main_ident=None, own_cb=False):
         # the body listens on its own channel by callback (with an endmarker): the end of the execution then also has
         # to deliver that endmarker
         action = "channel.setcallback(lambda item: None, endmarker=None)\n" + action
+    if slow_finalizer:
+        action = SLOW_FINALIZER + action
     return BODY.replace("MAIN()", main + "()").format(tag=tag, action=action)
 
 
@@ -107,7 +114,9 @@ def run_history(res: Result, gw, steps, label, hid, main_ident=None):
                     continue
                 return it
 
-        ch = gw.remote_exec(body_for(tag, "blocked_flood" if flood else oc, main_ident, own_cb=st.get("own_cb", False)))
+        ch = gw.remote_exec(body_for(tag, "blocked_flood" if flood else oc, main_ident, own_cb=st.get("own_cb", False), slow_finalizer=st.get("slow_finalizer", False)))
+        if st.get("slow_finalizer"):
+            res.count("bodies_leaving_a_slow_finalizer")
         if oc.startswith("timed"):
             oc = "timed"
         try:
